@@ -745,6 +745,10 @@ class Bubble(Box):
         """ The diagram inside a bubble. """
         return self._inside
 
+    @property
+    def free_symbols(self):
+        return self.inside.free_symbols
+
     def __str__(self):
         return "({}).bubble({})".format(
             self.inside,
